@@ -103,6 +103,18 @@ def run_stepwise(im, code: str, ast, files: T.Optional[T.Dict[str, str]] = None)
     if files is not None:
         im.reset_tree(files)
     mp = im.mparser
+    im.record_calls = True
+    try:
+        return _run_stepwise(im, code, ast, mp, viol)
+    finally:
+        im.record_calls = False
+        try:
+            viol += judge_calls(im, code)
+        except (MemoryError, RecursionError):
+            pass
+
+
+def _run_stepwise(im, code: str, ast, mp, viol: T.List[Viol]) -> T.Tuple[str, T.List[Viol]]:
     try:
         for i, st in enumerate(ast.lines):
             before = im.snapshot()
@@ -899,4 +911,143 @@ def check_string_nodes(im, code: str, ast: T.Any) -> T.List[Viol]:
         if n.value != want:
             out.append((f'literal-value:{kind}:{text!r}', f'the {kind} literal {text!r} is handed to the interpreter as {n.value!r}, '
                         f'the reference prescribes {want!r} before substitution', {'program': code, 'literal': text}))
+    return out
+
+
+# ---------------------------------------------------------------- documented methods: reference values
+
+def judge_calls(im, code: str) -> T.List[Viol]:
+    """every method call on a primitive value observed while the implementation ran `code` must return what
+    the documentation-derived reference (`c01_ref.ref_method`) prescribes — value, or failure"""
+    from . import c01_ref
+    out: T.List[Viol] = []
+    for recv, name, args, kwargs, res in im.calls:
+        try:
+            want = c01_ref.ref_method(recv, name, list(args), dict(kwargs))
+        except RecursionError:
+            continue
+        if want is None:
+            continue
+        t = c01_ref.tyname(recv)
+        call = None
+        try:
+            call = f'x = {src_of(recv)}.{name}(' + ', '.join([src_of(a) for a in args] + [f'{k}: {src_of(v)}' for k, v in kwargs.items()]) + ')\n'
+        except Exception:
+            pass
+        case = {'program': call or code, 'found_in': code, 'receiver': repr(recv), 'method': name, 'args': repr(args), 'kwargs': repr(kwargs)}
+        if want[0] == 'error':
+            if res[0] == 'ok':
+                out.append((f'method:{t}.{name}:accepts:{args!r}:{kwargs!r}', f'{t}.{name}{tuple(args)!r} succeeds with {res[1]!r}; the '
+                            'reference manual prescribes a failure (argument type/count, or no value to return)',
+                            dict(case, got=repr(res[1]))))
+            continue
+        if res[0] != 'ok':
+            out.append((f'method:{t}.{name}:fails:{recv!r}:{args!r}', f'{t}.{name} fails with {res[1]}; the reference manual prescribes '
+                        f'{want[1]!r}', dict(case, expected=repr(want[1]))))
+            continue
+        if want[0] == 'ok2':
+            strict, loose = want[1], want[2]
+            if deep_eq(res[1], strict):
+                continue
+            if deep_eq(res[1], loose):
+                out.append(('container-eq-bool-int', 'values of different types compare equal inside a container', case))
+                continue
+            want = ('ok', strict)
+        if not deep_eq(res[1], want[1]):
+            key = f'method:{t}.{name}:{recv!r}:{args!r}:{kwargs!r}'
+            if t == 'bool' and name == 'to_string' and len(args) == 2 and '' in args:
+                key = 'bool-to-string-empty'
+            out.append((key, f'{t}.{name}: the implementation returns {res[1]!r}, the reference manual prescribes {want[1]!r} '
+                        f'for receiver {recv!r} and arguments {args!r} {kwargs!r}', dict(case, got=repr(res[1]), expected=repr(want[1]))))
+    return out
+
+
+def rand_nested(rng, depth: int = 0) -> T.Any:
+    r = rng.random()
+    if r < 0.3:
+        return rng.randint(-3, 9)
+    if r < 0.4:
+        return rng.random() < 0.5
+    if r < 0.65 or depth >= 3:
+        return rng.choice(['', 'a', 'b', 'x', 'z', 'ab', 'a b', '1', 'a,b'])
+    if r < 0.9:
+        return [rand_nested(rng, depth + 1) for _ in range(rng.randint(0, 3))]
+    return {k: rand_nested(rng, depth + 1) for k in rng.sample(['a', 'b', 'k', 'z', ''], rng.randint(0, 3))}
+
+
+def subvalues(v: T.Any) -> T.List[T.Any]:
+    out = [v]
+    if isinstance(v, list):
+        for x in v:
+            out += subvalues(x)
+    elif isinstance(v, dict):
+        for x in v.values():
+            out += subvalues(x)
+    return out
+
+
+def oracle_method_relations(im, rng, n: int) -> T.List[Viol]:
+    """documented methods on nested receivers and structured arguments (needles of every kind, taken from inside the
+    receiver and from outside; negative / out-of-range indices; fallbacks), judged by the reference through the
+    observed calls, plus the relations that tie methods to operators"""
+    out: T.List[Viol] = []
+    for _ in range(n):
+        arr = [rand_nested(rng, 1) for _ in range(rng.randint(0, 4))]
+        inside = subvalues(arr)[1:]
+        needle = rng.choice(inside) if inside and rng.random() < 0.6 else rand_nested(rng, 1)
+        d = {k: rand_nested(rng, 1) for k in rng.sample(['a', 'b', 'k', 'z', '', 'kk'], rng.randint(0, 4))}
+        key = rng.choice(list(d) + ['a', 'q', ''])
+        i = rng.randint(-len(arr) - 2, len(arr) + 1)
+        fb = rand_nested(rng, 2)
+        s = rng.choice(['a,b,,c', 'x', '', 'a b  c', ',', 'ab,ab', 'one two', 'a-b-c'])
+        sep = rng.choice([',', ' ', 'ab', '-', 'b'])
+        num = rng.randint(-300, 300)
+        fill = rng.randint(0, 6)
+        flat = [x for x in arr if not isinstance(x, (list, dict))]
+        lines = [
+            f'arr = {src_of(arr)}', f'needle = {src_of(needle)}', f'd = {src_of(d)}', f'flat = {src_of(flat)}',
+            'c1 = arr.contains(needle)',
+            'c2 = arr.flatten().contains(needle)',
+            'c3 = flat.contains(needle) == (needle in flat)',
+            'c4 = [arr, [needle]].contains(needle)',
+            'c5 = [[arr]].contains(arr)',
+            'n1 = 0', 'foreach e : arr', '  n1 += 1', 'endforeach',
+            'n2 = arr.length() == n1 and arr.slice().length() == n1',
+            f'g1 = arr.get({int_src(i)}, {src_of(fb)})',
+            f'h1 = d.has_key({src_of(key)}) == ({src_of(key)} in d)',
+            f'g2 = d.get({src_of(key)}, {src_of(fb)})',
+            'k1 = d.keys().length() == d.values().length()',
+            f's = {src_of(s)}', f'sep = {src_of(sep)}',
+            'j1 = sep.join(s.split(sep)) == s',
+            f'num = {int_src(num)}',
+            f't1 = num.to_string().to_int() == num and num.to_string(fill: {fill}).to_int() == num',
+            't2 = true.to_string().to_upper() == \'TRUE\' and false.to_int() == 0 and num.is_even() != num.is_odd()',
+            f'sl = arr.slice({int_src(rng.randint(-5, 5))}, {int_src(rng.randint(-5, 5))}, step: {rng.choice([1, 2, -1, -2, 3])})',
+            f'sub = s.substring({int_src(rng.randint(-8, 8))}, {int_src(rng.randint(-8, 8))})',
+        ]
+        code = '\n'.join(lines) + '\n'
+        im.record_calls = True
+        try:
+            ok, vs, ans = ev(im, code)
+            out += judge_calls(im, code)
+        finally:
+            im.record_calls = False
+        if not ok:
+            out.append((f'relations:{code!r}', 'a program using only documented methods on well-typed values failed', {'program': code, 'answer': ans}))
+            continue
+        for name in ('c3', 'n2', 'h1', 'k1', 'j1', 't1', 't2'):
+            if vs.get(name) is not True:
+                out.append((f'relation:{name}:{code!r}', f'the relation `{[l for l in lines if l.startswith(name + " =")][0]}` does not hold',
+                            {'program': code, 'answer': ans}))
+        if vs.get('c4') is not True or vs.get('c5') is not True:
+            out.append((f'relation:contains-nested:{code!r}', 'an array that holds the sought value (itself an array or not) in a nested array does not contain it',
+                        {'program': code, 'answer': ans}))
+        # index / key access agrees with the operators
+        for expr, alt in ((f'arr.get({int_src(i)})', f'arr[{int_src(i)}]'), (f'd.get({src_of(key)})', f'd[{src_of(key)}]')):
+            c2 = '\n'.join(lines[:4]) + f'\nu = {expr}\n'
+            c3 = '\n'.join(lines[:4]) + f'\nu = {alt}\n'
+            ok2, vs2, a2 = ev(im, c2)
+            ok3, vs3, a3 = ev(im, c3)
+            if ok2 != ok3 or (ok2 and not deep_eq(vs2['u'], vs3['u'])):
+                out.append((f'relation:get-index:{c2!r}', f'`{expr}` and `{alt}` disagree', {'program': c2, 'other': c3, 'answers': [a2, a3]}))
     return out
